@@ -74,6 +74,33 @@ _DEEP = _deep_grammars()
 GRAMMARS['lalr-merge'] = ('start: A e A | B e B | e\ne: _C | _C e\nA: "a"\nB: "b"\n_C: "c"\n', {})
 
 
+# terminals whose NAMES are not upper-case words: those of an imported rule carry the module prefix (vm__A), an anonymous
+# literal in a caseless script is named by itself.  accepts() and the `expected` of UnexpectedToken told terminals from rules
+# with str.isupper() and dropped these (hunted defect 32).  (grammar, options, type of a/b/c, character of a/b/c)
+def _vm_loader(base, path):
+    if path == 'vm.lark':
+        return 'vm.lark', 'x: A | B x A\ny: A B?\nA: "a"\nB: "b"\n'
+    raise IOError(path)
+
+
+_NAMED = {
+    'names-imported': ('start: x _C?\n%import vm.x\n_C: "c"\n', {'import_paths': [_vm_loader]}, {'a': 'vm__A', 'b': 'vm__B', 'c': '_C'}, {}),
+    'names-imported-star': ('start: (y _C)*\n%import vm.y\n_C: "c"\n', {'import_paths': [_vm_loader], 'propagate_positions': True},
+                            {'a': 'vm__A', 'b': 'vm__B', 'c': '_C'}, {}),
+    'names-caseless': ('start: (x | "\u4e2d")+\n%import vm.x\n', {'import_paths': [_vm_loader]}, {'a': 'vm__A', 'b': 'vm__B', 'c': '\u4e2d'}, {'c': '\u4e2d'}),
+}
+_CUR = {'types': None, 'chars': {}}
+
+
+def _lookup(gname):
+    if gname in _NAMED:
+        g, o, ty, ch = _NAMED[gname]
+        _CUR['types'], _CUR['chars'] = ty, ch
+        return g, o
+    _CUR['types'], _CUR['chars'] = None, {}
+    return GRAMMARS[gname] if gname in GRAMMARS else _DEEP[gname]
+
+
 def digest(ip):
     st = ip.parser_state
     vals = [O.tree_json(v, positions=True, meta=True, container=True) if not isinstance(v, list) else ['L', [O.tree_json(x, True, True, True) for x in v]]
@@ -84,7 +111,7 @@ def digest(ip):
 
 def mk_token(t, idx):
     from lark import Token
-    return Token(TYPE[t], t, idx, 1, idx + 1, 1, idx + 2, idx + 1)
+    return Token((_CUR['types'] or TYPE)[t], _CUR['chars'].get(t, t), idx, 1, idx + 1, 1, idx + 2, idx + 1)
 
 
 def feed_hist(ip, hist, immutable=False):
@@ -105,7 +132,7 @@ def replay(job):
     from lark import Lark
     from lark.exceptions import UnexpectedToken, UnexpectedInput
     gname, beh = job
-    gtext, opts = GRAMMARS[gname] if gname in GRAMMARS else _DEEP[gname]
+    gtext, opts = _lookup(gname)
     global _PARSERS
     try:
         _PARSERS
@@ -189,7 +216,7 @@ def replay(job):
                         break
                 if clean:
                     try:
-                        r2 = json.dumps(O.tree_json(p.parse(''.join(hist[hh])), True, True, True))
+                        r2 = json.dumps(O.tree_json(p.parse(''.join(_CUR['chars'].get(t, t) for t in hist[hh])), True, True, True))
                     except UnexpectedInput as e:
                         r2 = 'ERR:' + type(e).__name__
                     eof.append([hh, hashlib.sha1(r1.encode()).hexdigest()[:12], hashlib.sha1(r2.encode()).hexdigest()[:12]])
@@ -376,8 +403,8 @@ def judge(cases, ev, rep, tmp, name):
             raise C.MachineryFailure('TraceInteractive violation without VERDICT line')
         for v in sorted(set(tuple(x) for x in res.verdicts)):
             c = chunk[int(v[0]) - 1]
-            rep.violation({'property': PID, 'clause': v[2], 'step': int(v[1]), 'grammar_name': c['grammar'], 'grammar': dict(GRAMMARS, **_DEEP)[c['grammar']][0],
-                           'options': dict(GRAMMARS, **_DEEP)[c['grammar']][1], 'behaviour': c['behaviour'], 'observed': c['steps'][int(v[1]) - 1]})
+            rep.violation({'property': PID, 'clause': v[2], 'step': int(v[1]), 'grammar_name': c['grammar'], 'grammar': dict(GRAMMARS, **_DEEP, **{k: v[:2] for k, v in _NAMED.items()})[c['grammar']][0],
+                           'options': {k: (v if k != 'import_paths' else 'vm.lark loader') for k, v in dict(GRAMMARS, **_DEEP, **{k: v[:2] for k, v in _NAMED.items()})[c['grammar']][1].items()}, 'behaviour': c['behaviour'], 'observed': c['steps'][int(v[1]) - 1]})
 
 
 def body(tier, seed, replay_file):
@@ -425,6 +452,7 @@ def body(tier, seed, replay_file):
             ev.count('behaviours_replayed', len(pick))
             for off in range(0, len(pick), 6000):
                 jobs = [(g, json.loads(b)) for b in pick[off:off + 6000] for g in GRAMMARS]
+                jobs += [(g, json.loads(b)) for b in pick[off:off + 6000:4] for g in _NAMED]
                 cases = C.pmap(replay, jobs)
                 ncases += len(cases)
                 ev.count('replays', len(cases))
@@ -438,8 +466,8 @@ def body(tier, seed, replay_file):
         # accepts() after every token sequence up to 3 on the look-ahead-merging grammars (all role assignments)
         import itertools
         djobs = []
-        for g in sorted(_DEEP):
-            for n in range(1, 4):
+        for g in sorted(_DEEP) + sorted(_NAMED):
+            for n in range(0 if g in _NAMED else 1, 5 if g in _NAMED else 4):
                 for seq in itertools.product('abc', repeat=n):
                     djobs.append((g, {'ops': [{'h': 1, 'op': 'feed', 't': t, 'new': 0} for t in seq] + [{'h': 1, 'op': 'accepts', 't': '', 'new': 0}], 'hist': {}}))
         dcases = C.pmap(replay, djobs)
